@@ -364,7 +364,7 @@ theorem zipExtract_overlay (root : P) (hr : GoodPath root) (hroot : root ≠ [])
 theorem tarOne_other (fs : FS) (root : P) (mask : Nat) (e : Entry) (hk : e.kind = .other) :
     tarOne fs root mask e =
       (fs, lexOK root (cleanJoin root e.name) false && ensureNoSymlinks fs root (cleanJoin root e.name)) := by
-  have hb : (e.kind == Kind.dir) = false := by rw [hk]; rfl
+  have hb : (Kind.other == Kind.dir) = false := rfl
   cases h1 : lexOK root (cleanJoin root e.name) false <;>
     cases h2 : ensureNoSymlinks fs root (cleanJoin root e.name) <;> simp [tarOne, hk, hb, h1, h2]
 
@@ -460,6 +460,6 @@ theorem overlay_first_self (root : P) (mask : Nat) (l1 : List Entry) (e : Entry)
   have h1 := overlay_untouched root mask l1 t _ hq hl1
   rw [overlayStep_get root mask _ e hc]
   unfold stepGet; rw [h1]; simp only
-  rw [if_pos rfl]; exact hn
+  rw [if_pos trivial]; exact hn
 
 end Ex
